@@ -8,6 +8,7 @@ are compared with the model's "key existed before this row was written".
 import collections
 import copy
 import datetime
+import decimal
 import json
 import os
 import sqlite3
@@ -79,8 +80,13 @@ def run_case(case):
     if rng.random() < 0.5:
         fields.append(('obj', 'object'))
     typ = dict(fields)
-    keymode = rng.choice(['explicit_single', 'explicit_composite', 'pk_single', 'pk_composite'])
+    keymode = rng.choice(['explicit_single', 'explicit_composite', 'pk_single', 'pk_composite', 'explicit_number'])
     keys = ['k1'] if 'single' in keymode else ['k1', 'k2']
+    if keymode == 'explicit_number':
+        # a number field as update key: equal numbers are one key however they are written (1.5, Decimal('2.0') / ('2.00'))
+        fields.insert(0, ('kn', 'number'))
+        typ = dict(fields)
+        keys = ['kn']
     use_pk = keymode.startswith('pk')
     # Table Schema also allows primaryKey to be a single field name (a string)
     pk_as_string = keymode == 'pk_single' and rng.random() < 0.4
@@ -126,6 +132,9 @@ def run_case(case):
         for i in range(nrows):
             for _ in range(20):
                 r = {'k1': rng.randint(0, 12), 'k2': rng.choice(['a', 'b', 'é'])}
+                if keymode == 'explicit_number':
+                    r['kn'] = rng.choice([decimal.Decimal('1.5'), decimal.Decimal('2'), decimal.Decimal('2.0'),
+                                          decimal.Decimal('2.00'), decimal.Decimal('-0.25'), 3, 7.5])
                 if mode == 'update' and existing and rng.random() < 0.4:
                     kk = rng.choice(existing)
                     r.update(dict(zip(keys, kk)))
